@@ -133,18 +133,22 @@ namespace sqf::parser::assembly
                 size_t len = 0;
                 switch (token_type)
                 {
-                default: return { etoken::invalid, m_line, m_column, (size_t)(m_current - m_start), {} };
+                default: return create_token();
 
                 case etoken::m_line: /* ToDo: Properly handle #line instruction */ {
                     // Check if line comment start
                     if (len_ident_match(iter, "#line"))
                     {
-                        iter += 6;
+                        iter += 5;
+                        if (iter != m_end) { ++iter; }
 
                         // Read in line num
                         auto start = iter;
                         for (; iter != m_end && *iter != '\n' && *iter != ' '; iter++);
                         std::string str_tmp(start, iter);
+                        bool is_number = !str_tmp.empty() && str_tmp.length() <= 18;
+                        for (char c : str_tmp) { if (c < '0' || c > '9') { is_number = false; } }
+                        if (!is_number) { break; } // not a #line directive
                         m_line = static_cast<size_t>(std::stoul(str_tmp));
 
                         // Try skip to file
@@ -169,7 +173,7 @@ namespace sqf::parser::assembly
                     if (is_match_repeated<2, '/'>(iter))
                     {
                         // find line comment end
-                        while (!is_match<'\n'>(++iter));
+                        while (++iter < m_end && !is_match<'\n'>(iter));
 
                         // update position info
                         m_line++;
@@ -186,7 +190,7 @@ namespace sqf::parser::assembly
                         ++iter;
                         ++iter;
                         // find block comment end
-                        while (!(is_match<'*'>(iter) && is_match<'/'>(iter + 1)))
+                        while (iter < m_end && !(is_match<'*'>(iter) && is_match<'/'>(iter + 1)))
                         {
                             // update position info
                             if (!is_match<'\n'>(iter))
@@ -201,8 +205,8 @@ namespace sqf::parser::assembly
                             ++iter;
                         }
 
-                        // EOF check
-                        if (is_match<'/'>(iter) && is_match<'/'>(iter + 1))
+                        // Skip the terminator (there is none if the input ended inside the comment)
+                        if (is_match<'*'>(iter) && is_match<'/'>(iter + 1))
                         {
                             ++iter;
                             ++iter;
@@ -440,6 +444,18 @@ namespace sqf::parser::assembly
         }
         token next()
         {
+            auto t = next_token();
+            if (t.type == etoken::invalid && m_current != m_end)
+            { // a character no token starts with is a token of its own: the caller must never be handed the same position twice
+                t.contents = { &*m_current, 1 };
+                ++m_current;
+                ++m_column;
+            }
+            return t;
+        }
+    private:
+        token next_token()
+        {
             if (m_current == m_end) { return create_token(etoken::eof); };
             switch (*m_current)
             {
@@ -512,6 +528,7 @@ namespace sqf::parser::assembly
             default:            return create_token();
             }
         }
+    public:
         token create_token(etoken token_type = etoken::invalid) const
         {
             return
